@@ -818,6 +818,11 @@ def gen_total(seed, tier):
         b = GridBuilder(rng)
         for _ in range(rng.randint(0, 30)):
             b.step(maxcells=rng.choice([0, 1, 2, 4, 11]), items=item)
+        if i % 50 == 7:
+            # the extreme of a declared size that disagrees with the text: the largest int (known finding D20)
+            big = rnd_obj(rng, TEXTS, caps=["String", rng.choice(["Height", "Width"])])
+            big["hmax" if "Height" in big["caps"] else "wmax"] = 1
+            b.ops.append({"op": "rowitems", "t": 1, "items": [big, {"k": "str", "s": "y"}]})
         ncols = max([0] + [x["n"] for x in b.rows if x["tbl"]] + [len(o["items"]) for o in b.ops if o["op"] == "headers"])
         for c in range(0, ncols + 1):
             if rng.random() < 0.3:
